@@ -87,6 +87,15 @@ GridFirstOK(q, L) == Len(q) = L /\ -1 <= q[1] /\ q[1] <= 1                     \
 GridLastOK(q, L) ==                                                           \* ends within half a frame of frame L-1
   Len(q) = L /\ 2 * (L - 1) - 1 <= q[L] /\ q[L] <= 2 * (L - 1) + 1
 GridOK(q, L) == GridOrderOK(q, L) /\ GridFirstOK(q, L) /\ GridLastOK(q, L)
+\* the same three clauses at a finer quantisation: q[i] = floor(u * source position), u units per frame (u even).
+\* floor is monotone, so a non-decreasing read order stays non-decreasing at EVERY u; a position within half a
+\* frame of frame k has floor(u * x) in u*k - u/2 .. u*k + u/2.  (u = 2 is GridOK.)  Used for read positions that
+\* are OBSERVED to float precision (ramp features), where a drop of less than half a frame must not go unnoticed.
+GridFineOK(q, L, u) ==
+  /\ Len(q) = L /\ u >= 2 /\ u % 2 = 0
+  /\ \A i \in 1..(L - 1) : q[i] <= q[i + 1]
+  /\ 0 - (u \div 2) <= q[1] /\ q[1] <= u \div 2
+  /\ u * (L - 1) - (u \div 2) <= q[L] /\ q[L] <= u * (L - 1) + (u \div 2)
 
 (***************************************************************************)
 (* "No warp of any order yields a non-finite value or one outside the      *)
